@@ -196,7 +196,8 @@ theorem resolve_sound_partial (proj : Project) (rank : List Nat) (hwf : WF proj 
     (hown : PyImp.pyOwn proj ordPy m cp name = true) :
     i₁ = i₂ := by
   have wf := WF.facts hwf
-  obtain ⟨hI, hn, _⟩ := run_ok wf ordPd (run_clean hwf ordPd)
+  have nr := WF.noReexp hwf
+  obtain ⟨hI, hn, _⟩ := run_ok wf nr ordPd (run_clean hwf ordPd)
   obtain ⟨S, sv, hcase, hj, hid⟩ := pyDenotes_j wf h2 hown
   unfold pdResolve resolveIn at h1
   generalize run proj ordPd = s at hI hn h1
@@ -286,8 +287,9 @@ theorem resolve_sound_inherited (proj : Project) (rank : List Nat) (hwf : WF pro
     (h1 : pdResolve proj ordPd m cp name = some i₁) (h2 : PyImp.pyDenotes proj ordPy m cp name = some i₂) :
     i₁ = i₂ := by
   have wf := WF.facts hwf
+  have nr := WF.noReexp hwf
   have ciu := CIU.of hci
-  obtain ⟨hI, hn, _⟩ := run_ok wf ordPd (run_clean hwf ordPd)
+  obtain ⟨hI, hn, _⟩ := run_ok wf nr ordPd (run_clean hwf ordPd)
   obtain ⟨S, sv, hcase, hj, hid⟩ := pyDenotes_jI wf h2
   unfold pdResolve resolveIn at h1
   generalize run proj ordPd = s at hI hn h1
@@ -437,7 +439,8 @@ theorem resolve_from_definer (proj : Project) (rank : List Nat) (hwf : WF proj r
     {st : Stmt} (hdef : st ∈ bodyOf proj t) (hdn : st.defName = some n) :
     pdResolve proj ord m [] [a.getD n] = some (.dfn (pathOf proj t ++ [n])) := by
   have wf := WF.facts hwf
-  obtain ⟨hI, hn, hproc⟩ := run_ok wf ord (run_clean hwf ord)
+  have nr := WF.noReexp hwf
+  obtain ⟨hI, hn, hproc⟩ := run_ok wf nr ord (run_clean hwf ord)
   obtain ⟨T, hT, hmT⟩ := target_spec htgt
   obtain ⟨htl, hpT⟩ := modIdx_spec hmT
   have hmo := hcov m hm
@@ -464,7 +467,8 @@ theorem resolve_via_module_alias (proj : Project) (rank : List Nat) (hwf : WF pr
     {st : Stmt} (hdef : st ∈ bodyOf proj t) (hdn : st.defName = some n) :
     pdResolve proj ord m [] [al, n] = some (.dfn (pathOf proj t ++ [n])) := by
   have wf := WF.facts hwf
-  obtain ⟨hI, hn, hproc⟩ := run_ok wf ord (run_clean hwf ord)
+  have nr := WF.noReexp hwf
+  obtain ⟨hI, hn, hproc⟩ := run_ok wf nr ord (run_clean hwf ord)
   obtain ⟨htl, hpT⟩ := modIdx_spec htgt
   have hmo := hcov m hm
   have hto := hcov t htl
@@ -722,23 +726,26 @@ identity of the object is its definition site.  The statement therefore relocate
 the plain module that defines it (a top-level class / function that the definer does not list itself);
 at most one re-exporter per object; no import in a class body. -/
 
-/-- THE STATEMENT (soundness with moved objects, every processing order, every import order) — not proved -/
+/-- THE STATEMENT (soundness with moved objects, every processing order that processes every module —
+what `System.process` does —, every import order) -/
 def ResolveSoundReexport (proj : Project) (rank : List Nat) : Prop :=
-  WFr proj rank = true → ∀ (ordPd ordPy : List Nat) (m : Nat), m < proj.length →
+  WFr proj rank = true → ∀ (ordPd ordPy : List Nat), (∀ i, i < proj.length → i ∈ ordPd) → ∀ (m : Nat), m < proj.length →
     ∀ (cp : List Name) (name : Path) (a b : Ident),
       pdResolve proj ordPd m cp name = some a → PyImp.pyDenotes proj ordPy m cp name = some b → a = finalLoc proj b
 
 /-- … and its corollary: the resolution of a Python-bound name does not depend on the processing order -/
 def ResolveOrderIndependentReexport (proj : Project) (rank : List Nat) : Prop :=
-  WFr proj rank = true → ∀ (ord₁ ord₂ ordPy : List Nat) (m : Nat), m < proj.length →
+  WFr proj rank = true → ∀ (ord₁ ord₂ ordPy : List Nat), (∀ i, i < proj.length → i ∈ ord₁) →
+    (∀ i, i < proj.length → i ∈ ord₂) → ∀ (m : Nat), m < proj.length →
     ∀ (cp : List Name) (name : Path) (a b c : Ident),
       pdResolve proj ord₁ m cp name = some a → pdResolve proj ord₂ m cp name = some b →
       PyImp.pyDenotes proj ordPy m cp name = some c → a = b
 
 theorem ResolveSoundReexport.order_independent {proj : Project} {rank : List Nat}
     (h : ResolveSoundReexport proj rank) : ResolveOrderIndependentReexport proj rank :=
-  fun hw o1 o2 op m hm cp name a b c h1 h2 h3 =>
-    (h hw o1 op m hm cp name a c h1 h3).trans (h hw o2 op m hm cp name b c h2 h3).symm
+  fun hw o1 o2 op hc1 hc2 m hm cp name a b c h1 h2 h3 =>
+    (h hw o1 op hc1 m hm cp name a c h1 h3).trans (h hw o2 op hc2 m hm cp name b c h2 h3).symm
+
 
 /-- on projects without re-export requests `finalLoc` is the identity and `WFr` projects are `WF`: the
 statement is `resolve_sound_partial` / `resolve_sound_inherited` there -/
@@ -773,6 +780,15 @@ def rxProj (pkg renamed : Bool) (form : Nat) : Project × List Nat :=
     ([⟨[['d','d']], false, rxDefBody⟩,
       ⟨[['x','x']], false, [.importFrom 0 [['d','d']] ['K'] asn, .importFrom 0 [['d','d']] ['f'] (some ['h']), .allAssign [nn]]⟩,
       ⟨[['u','u']], false, rxConsumer [['d','d']] [['x','x']] nn form⟩], [0, 1, 2])
+
+/-- why the processing order must cover every module: a re-exporter that is never processed moves
+nothing (`dd` alone is processed: `K` stays `dd.K`, while the finished system documents it as `xx.K`) -/
+theorem resolve_sound_reexport_partial_order_counterexample :
+    WFr (rxProj false false 0).1 [0, 1, 2] = true ∧
+    pdResolve (rxProj false false 0).1 [0] 0 [] [['K']] = some (.dfn [['d','d'], ['K']]) ∧
+    PyImp.pyDenotes (rxProj false false 0).1 [0, 1, 2] 0 [] [['K']] = some (.dfn [['d','d'], ['K']]) ∧
+    finalLoc (rxProj false false 0).1 (.dfn [['d','d'], ['K']]) = .dfn [['x','x'], ['K']] ∧
+    pdResolve (rxProj false false 0).1 [0, 1, 2] 0 [] [['K']] = some (.dfn [['x','x'], ['K']]) := by decide +kernel
 
 def rxFamily : List (Project × List Nat) :=
   [true, false].flatMap fun pkg => [true, false].flatMap fun ren => (List.range 7).map fun form => rxProj pkg ren form
